@@ -720,12 +720,34 @@ func ruleTab3(c *Ctx, r *Reporter) {
 
 	literalCovers := func(where string, decl *ast.FuncDecl, info *types.Info, t *types.Named, srcT *types.Named, requirePlain bool) {
 		lits := compositeLits(decl, info, t)
-		if len(lits) == 0 {
-			r.bad(where+":literal "+t.Obj().Name(), c.pos(decl.Pos()), "no composite literal of "+t.Obj().Name()+" found")
+		// field-by-field assignments (x.F = v on a variable of the struct type) count like literal elements
+		assigned := map[string]ast.Expr{}
+		ast.Inspect(decl.Body, func(n ast.Node) bool {
+			as, ok := n.(*ast.AssignStmt)
+			if !ok || len(as.Lhs) != len(as.Rhs) {
+				return true
+			}
+			for i, lhs := range as.Lhs {
+				if se, ok := lhs.(*ast.SelectorExpr); ok {
+					if sel, ok := info.Selections[se]; ok && sel.Kind() == types.FieldVal && derefNamed(sel.Recv()) == t {
+						assigned[se.Sel.Name] = as.Rhs[i]
+					}
+				}
+			}
+			return true
+		})
+		if len(lits) == 0 && len(assigned) == 0 {
+			r.bad(where+":literal "+t.Obj().Name(), c.pos(decl.Pos()), "no composite literal of "+t.Obj().Name()+" (nor field assignments) found")
 			return
+		}
+		if len(lits) == 0 || (len(lits) == 1 && len(lits[0].Elts) == 0 && len(assigned) > 0) {
+			lits = []*ast.CompositeLit{{Lbrace: decl.Pos()}}
 		}
 		for _, cl := range lits {
 			set := map[string]ast.Expr{}
+			for k, v := range assigned {
+				set[k] = v
+			}
 			for _, el := range cl.Elts {
 				if kv, ok := el.(*ast.KeyValueExpr); ok {
 					if id, ok := kv.Key.(*ast.Ident); ok {
@@ -737,7 +759,11 @@ func ruleTab3(c *Ctx, r *Reporter) {
 				key := fmt.Sprintf("%s:%s.%s", where, t.Obj().Name(), f)
 				v, ok := set[f]
 				if !ok {
-					r.bad(key, c.pos(cl.Pos()), "field is not set: this part of the definition is dropped")
+					pos := decl.Pos()
+					if cl.Pos().IsValid() {
+						pos = cl.Pos()
+					}
+					r.bad(key, c.pos(pos), "field is not set: this part of the definition is dropped")
 					continue
 				}
 				if requirePlain {
